@@ -48,10 +48,34 @@ def _conf(a) -> PduConfig:
     src = _bf(a["src_v"], a["src_w"], via)
     dst = _bf(a["dst_v"], a["dst_w"], via)
     seq = _bf(a["seq_v"], a["seq_w"], via)
+    # TYPE-COERCION dimension (core.py "forms"): the five one-bit flags of the configuration are IntEnum members in the library;
+    # a program may equally hold the plain int or the bool of the same value (PduConfig is an unvalidated dataclass and every
+    # encoder computes with the VALUE). forms["conf"] = "int" / "bool" hands all five over in that form; the Lean op does not
+    # read the key, so the octets / fields the model proves stay the reference whatever the form.
+    cf = (a.get("forms") or {}).get("conf")
+    _f = (lambda cls, v: int(v)) if cf == "int" else (lambda cls, v: bool(v)) if cf == "bool" else _m
     return PduConfig(source_entity_id=src, dest_entity_id=dst, transaction_seq_num=seq,
-                     trans_mode=_m(TransmissionMode, a["mode"]), file_flag=_m(LargeFileFlag, a["large"]),
-                     crc_flag=_m(CrcFlag, a["crc"]), direction=_m(Direction, a["dir"]),
-                     seg_ctrl=_m(SegmentationControl, a["segctrl"]))
+                     trans_mode=_f(TransmissionMode, a["mode"]), file_flag=_f(LargeFileFlag, a["large"]),
+                     crc_flag=_f(CrcFlag, a["crc"]), direction=_f(Direction, a["dir"]),
+                     seg_ctrl=_f(SegmentationControl, a["segctrl"]))
+
+
+CONF_FORMS = ("member", "int", "bool")
+
+
+def conf_form_variants(cases, rng, share: float = 0.08, ops=None):
+    """the generated stream unchanged, followed by a share of its 'valid' cases that carry a configuration once more with
+    the five configuration flags as plain ints / bools (own random stream: the stream itself is the same with and without)"""
+    from core import forms_rng, case_with_forms
+    frng = forms_rng(rng)
+    later = []
+    for c in cases:
+        yield c
+        o = c.op
+        if c.expect == "valid" and "forms" not in o and all(k in o for k in CONF_KEYS) and (ops is None or o.get("op") in ops) \
+                and frng.random() < share:
+            later.append(case_with_forms(c, {"conf": frng.choice(CONF_FORMS[1:])}))
+    yield from later
 
 
 # ---- state leaking between calls / objects: shared helpers (also used by props/c06_*.py, c07.py, c12.py) ----
@@ -67,7 +91,7 @@ def conf_view(c: PduConfig) -> Dict[str, Any]:
 def shared_conf(a) -> PduConfig:
     """the PduConfig for the case's parameters as a program holds it: built once, handed to many constructors
     (the same instance for cases with equal configuration parameters). Only for ops that call no setter."""
-    return REUSE.get(["PduConfig", [a[k] for k in CONF_KEYS], a.get("via", 0)], lambda: _conf(a))
+    return REUSE.get(["PduConfig", [a[k] for k in CONF_KEYS], a.get("via", 0), (a.get("forms") or {}).get("conf")], lambda: _conf(a))
 
 
 def conf_untouched(conf: PduConfig, a, what: str):
@@ -620,6 +644,9 @@ class C05(Prop):
                     yield Case({"op": "hdr_pack", **a}, "valid", tag="nb-width")
 
     def cases(self, rng: random.Random, tier: str) -> Iterator[Case]:
+        yield from conf_form_variants(self._cases_members(rng, tier), rng, share=0.03)
+
+    def _cases_members(self, rng: random.Random, tier: str) -> Iterator[Case]:
         thorough = tier == "thorough"
         dl_pool = pool(65535, rng)
         vpools = {w: pool(vmax(w), rng) for w in WIDTHS}
